@@ -218,7 +218,9 @@ def h_compat(ctx):
         cells = ctx.flag(tag + "_cells")
         rev = ctx.flag(tag + "_rev")
         inc = [ctx.flag(f"{tag}_inc{i}") for i in range(d)]
-        variant = ctx.choice(tag + "_geom", 4)  # 0 same, 1 shifted origin, 2 other spacing, 3 one more point
+        # 0 same, 1 shifted origin, 2 other spacing, 3 one more point, 4 rectilinear with the same extent and node
+        # count but a moved interior node, 5 the same geometry given as a RectilinearGrid
+        variant = ctx.choice(tag + "_geom", 6)
         dm = list(dims)
         sp = [1.0, 2.0, 0.5][:d]
         org = [10.0, 20.0, 30.0][:d]
@@ -229,9 +231,18 @@ def h_compat(ctx):
         elif variant == 3:
             dm[0] += 1
         crs = "EPSG:4326" if ctx.flag(tag + "_crs") else None
+        loc = Location.CELLS if cells else Location.POINTS
         g = fm.UniformGrid(dm, spacing=sp, origin=org, axes_reversed=rev, axes_increase=inc, crs=crs,
-                           data_location=Location.CELLS if cells else Location.POINTS)
-        return g, (variant, crs, cells), (rev, inc)
+                           data_location=loc)
+        if variant in (4, 5):
+            axes = [ax.copy() for ax in g.axes]
+            if variant == 4:
+                k = max(range(d), key=lambda i: len(axes[i]))
+                if len(axes[k]) >= 3:
+                    axes[k][1] += 0.3 * (axes[k][2] - axes[k][1])  # interior node moved, extent unchanged
+            axes = [ax if inc[i] else ax[::-1].copy() for i, ax in enumerate(axes)]
+            g = fm.RectilinearGrid(axes, data_location=loc, axes_reversed=rev, crs=crs)
+        return g, (variant if variant != 5 else 0, crs, cells), (rev, inc)
 
     g1, geo1, lay1 = make("a")
     if ctx.params.get("fix_first", True):
@@ -302,7 +313,7 @@ def families(tier):
     for dims in ([(3, 4)] if q else [(3, 4), (4,), (2, 3, 2)]):
         fams.append(dict(name=f"compat:{'x'.join(map(str, dims))}", ref="vf.props.c15:h_compat",
                          params={"dims": list(dims)},
-                         bounds=f"pairs of UniformGrids around {dims} points: 4 geometry variants x crs x location x "
+                         bounds=f"pairs of UniformGrids around {dims} points: 6 geometry variants (incl. rectilinear with a moved interior node) x crs x location x "
                                 f"all layout flags on both sides",
                          must_cover=["compatible", "incompatible"]))
     return fams
